@@ -900,7 +900,7 @@ func ruleDecodeLoopLeavesOnError(c *core.Ctx) {
 		var fc *core.FuncCFG
 		ast.Inspect(d.Body, func(x ast.Node) bool {
 			loop, ok := x.(*ast.ForStmt)
-			if !ok || loop.Cond != nil {
+			if !ok {
 				return true
 			}
 			var call *ast.CallExpr
@@ -922,8 +922,32 @@ func ruleDecodeLoopLeavesOnError(c *core.Ctx) {
 			if call == nil || errObj == nil {
 				return true
 			}
+			if loop.Cond != nil {
+				if o, _, isNil := core.IsNilTest(info, loop.Cond); !isNil || o != errObj {
+					return true // a counted loop: it ends by itself
+				}
+			}
 			n++
 			key := c.FuncName(d) + "/for { Decode }"
+			if loop.Cond != nil {
+				// `for err == nil { err = d.Decode(..) }`: the loop condition itself is the exit on error, provided
+				// nothing else in the body overwrites the error and no path skips back past the condition (none can)
+				o, neq, isNil := core.IsNilTest(info, loop.Cond)
+				writes := 0
+				ast.Inspect(loop.Body, func(y ast.Node) bool {
+					if as, ok := y.(*ast.AssignStmt); ok {
+						for _, l := range as.Lhs {
+							if identObj(info, l) == errObj {
+								writes++
+							}
+						}
+					}
+					return true
+				})
+				c.Check(isNil && !neq && o == errObj && writes == 1, rule, key, loop.Pos(), "the loop runs only while the error is nil",
+					"the loop around Decode has a condition that does not stop it once Decode has failed: the decoder keeps returning the same error and yardl never terminates")
+				return true
+			}
 			if fc == nil {
 				fc = core.NewCFG(d.Body, info)
 			}
